@@ -113,6 +113,13 @@ class FullExecutor(Executor):
             clsobj = resolve_class(t.cls) if isinstance(t, TRec) else CLASS_OBJ.get(t.cls)
             if clsobj is None:
                 raise Unsupported(f"method {name} on {t}")
+            if (isinstance(t, TRec) and name == "_replace" and not args and issubclass(clsobj, tuple) and hasattr(clsobj, "_fields")
+                    and getattr(inspect.getattr_static(clsobj, "_replace"), "__module__", None) == "collections"   # the generated one
+                    and all(k in t.fields for k in kwargs)):
+                # NamedTuple._replace(field=value, ...): a copy of the record with the named fields replaced
+                vals = {f: rec_get(recv, f) for f in t.fields}
+                vals.update(kwargs)
+                return self.wrap(st, rec_make(t, vals), stmt_level)
             o = inspect.getattr_static(clsobj, name)
             if isinstance(o, staticmethod):
                 return self.call_function(st, o.__func__, args, kwargs, stmt_level=stmt_level, node=node)
@@ -280,6 +287,38 @@ class FullExecutor(Executor):
             return recv
         if name == "keys" and not args:
             return V(TSet(t.k), s.dom(recv.z))     # the keys view, as the set of keys (iteration order is not modelled)
+        if name == "items" and not args:
+            # the items view, as a fresh list of (key, value) tuples in an ARBITRARY order (iteration order is not modelled):
+            # every element is an item of the dict, keys are pairwise distinct, every key of the dict occurs (witness index)
+            et = TTuple(t.k, t.v)
+            r = fresh_seq(TList(et), st, "items")
+            ts = et.sort()
+            kf, vf = ts.accessor(0, 0), ts.accessor(0, 1)
+            n, arr = seq_len(r), seq_arr(r)
+            i, j = z3.Int(T.fresh_name("qit")), z3.Int(T.fresh_name("qit"))
+            st.assume(forall([i], z3.Implies(z3.And(0 <= i, i < n),
+                                             z3.And(z3.Select(s.dom(recv.z), kf(z3.Select(arr, i))),
+                                                    z3.Select(s.val(recv.z), kf(z3.Select(arr, i))) == vf(z3.Select(arr, i))))))
+            st.assume(forall([i, j], z3.Implies(z3.And(0 <= i, i < j, j < n), kf(z3.Select(arr, i)) != kf(z3.Select(arr, j)))))
+            x = z3.Const(T.fresh_name("qk"), t.k.sort())
+            wit = z3.Function(T.fresh_name("itemw"), t.k.sort(), z3.IntSort())
+            st.assume(forall([x], z3.Implies(z3.Select(s.dom(recv.z), x),
+                                             z3.And(0 <= wit(x), wit(x) < n, kf(z3.Select(arr, wit(x))) == x))))
+            return r
+        if name == "values" and not args:
+            # the values view, as a fresh list in an ARBITRARY order (iteration order is not modelled; two calls are not assumed to
+            # agree): element i is the value stored under a key kf(i); these keys are pairwise distinct and cover the dict
+            r = fresh_seq(TList(t.v), st, "values")
+            n, arr = seq_len(r), seq_arr(r)
+            kf = z3.Function(T.fresh_name("valkey"), z3.IntSort(), t.k.sort())
+            i, j = z3.Int(T.fresh_name("qvl")), z3.Int(T.fresh_name("qvl"))
+            st.assume(forall([i], z3.Implies(z3.And(0 <= i, i < n),
+                                             z3.And(z3.Select(s.dom(recv.z), kf(i)), z3.Select(arr, i) == z3.Select(s.val(recv.z), kf(i))))))
+            st.assume(forall([i, j], z3.Implies(z3.And(0 <= i, i < j, j < n), kf(i) != kf(j))))
+            x = z3.Const(T.fresh_name("qk"), t.k.sort())
+            wit = z3.Function(T.fresh_name("valw"), t.k.sort(), z3.IntSort())
+            st.assume(forall([x], z3.Implies(z3.Select(s.dom(recv.z), x), z3.And(0 <= wit(x), wit(x) < n, kf(wit(x)) == x))))
+            return r
         raise Unsupported(f"dict.{name}")
 
     # ------------------------------------------------------------------ constructing objects
@@ -550,6 +589,16 @@ class FullExecutor(Executor):
             if stmt_level:
                 if self.feasible(s2):
                     self.havoc_modifies(s2, c, env, node)
+                    erp = c.hints.get("on_raise") if c.kind == "external" else None
+                    if erp is not None:
+                        # an ASSUMED (external) contract may state the state a raising exit leaves behind: its
+                        # hint_on_raise(params..., old, exc_class) is assumed after the havoc of `modifies` (for contracts
+                        # of kind "verify" hint_on_raise stays what it was: an obligation of the callee, unused here)
+                        rb = dict(env)
+                        rb["old"] = PyObj(old_ns)
+                        rb["exc_class"] = K(cls.__name__)
+                        _, rps = contract_ast(erp)
+                        s2.assume(self.eval_contract(s2, erp, {k: v for k, v in rb.items() if k in rps}))
                     outs.append((s2, Outcome("raise", ExcInfo(cls, or_subclass=exc_name.endswith("+"), line=self.cur_line,
                                                               value=list(args) if c.kind == "external" else None))))
             else:
@@ -786,6 +835,9 @@ class FullExecutor(Executor):
             if t is not None and not (isinstance(val, V) and val.ty == t):
                 if isinstance(val, PyObj) and isinstance(val.o, tuple) and val.o[0] == "emptyset" and isinstance(t, TSet):
                     return V(t, z3.K(t.elem.sort(), False))
+                if isinstance(val, PyObj) and val.o == ("defaultdict", "set") and isinstance(t, T.TDefaultDict) and isinstance(t.v, TSet):
+                    s = t.sort()
+                    return V(t, s.constructor(0)(z3.K(t.k.sort(), False), z3.K(t.k.sort(), t.empty)))
                 if isinstance(val, PyObj) and isinstance(val.o, tuple) and val.o[0] == "dictlit" and isinstance(t, TDict) and not val.o[1]:
                     s = t.sort()
                     return V(t, s.constructor(0)(z3.K(t.k.sort(), False), z3.K(t.k.sort(), ops.default_val(t.v))))
@@ -1052,10 +1104,13 @@ class FullExecutor(Executor):
                 elif isinstance(n, ast.Call):
                     f = n.func
                     if isinstance(f, ast.Attribute) and f.attr in MUTATING_METHODS:
-                        if isinstance(f.value, ast.Name):
-                            names.add(f.value.id)
-                        elif isinstance(f.value, ast.Attribute):
-                            fields.add(f.value.attr)
+                        recv = f.value
+                        while isinstance(recv, ast.Subscript):
+                            recv = recv.value       # `d[k].add(x)`: the container that holds the updated value is written
+                        if isinstance(recv, ast.Name):
+                            names.add(recv.id)
+                        elif isinstance(recv, ast.Attribute):
+                            fields.add(recv.attr)
                     if not self.is_pure_call_node(n):
                         # a call with a contract may modify arguments / heap: resolved lazily via its modifies
                         muts = True
@@ -1351,6 +1406,15 @@ class FullExecutor(Executor):
         return outs
 
     def s_FunctionDef(self, st, s):
+        a = s.args
+        body = [x for x in s.body if not (isinstance(x, ast.Expr) and isinstance(x.value, ast.Constant))]
+        if (not (a.posonlyargs or a.args or a.kwonlyargs or a.vararg or a.kwarg) and not s.decorator_list
+                and len(body) == 1 and isinstance(body[0], ast.Return) and body[0].value is not None
+                and not any(isinstance(n, (ast.Call, ast.Yield, ast.YieldFrom, ast.NamedExpr, ast.Lambda)) for n in ast.walk(body[0].value))):
+            # a local predicate `def f(): return <call-free expression over the enclosing locals>`: a closure reads the enclosing
+            # variables when it is CALLED (late binding), so a call is the expression evaluated in the caller's state at that point
+            st.env[s.name] = PyObj(("localfn", body[0].value))
+            return [(st, NEXT)]
         raise Unsupported("nested function definition")
 
     def s_Delete(self, st, s):
